@@ -2,16 +2,29 @@ import DryocVerif.Proofs.Argon2Spec
 import DryocVerif.Proofs.GenArgon2
 import DryocVerif.Proofs.PwhashExtra
 import DryocVerif.Proofs.GenPwhash
+import DryocVerif.Proofs.Argon2Code
 /-
 C09 — Argon2 (`src/argon2.rs`) and `crypto_pwhash` (`src/classic/crypto_pwhash.rs`).
 Property theorems only; helper lemmas live in `DryocVerif/Proofs/Argon2.lean` (the model
-computes, without panicking, the pure functions `…N`) and `DryocVerif/Proofs/Argon2Spec.lean`
-(those pure functions are the RFC-structured specification `Spec.Argon2.argon2`).
+computes, without panicking, the pure functions `…N`), `DryocVerif/Proofs/Argon2Spec.lean`
+(those pure functions are the RFC-structured specification `Spec.Argon2.argon2`) and
+`DryocVerif/Proofs/Argon2Code.lean` (the BLAKE2b calls, see below).
 
-The model (`DryocVerif/Model/Argon2.lean`) follows argon2.rs function by function; every checked
-`u32`/`u64`/`usize` operation, every slice index and every `assert!` is an explicit
-`Outcome.panic`, every `Err` an `Outcome.err`, so the statements below are about the arithmetic
-the Rust code actually performs.
+WHAT THE MODEL IS.  `DryocVerif/Model/Argon2.lean` is a hand-written transcription of argon2.rs, function by
+function: every checked `u32`/`u64`/`usize` operation, every slice index and every `assert!` is an explicit
+`Outcome.panic`, every `Err` an `Outcome.err`.  The statements of §1–§9 are theorems about THAT transcription.
+What ties it to the Rust text is (i) the machine-translated kernels at the end of this file (`fblamka`, the round,
+the `fill_block` index tables, `index_alpha`, `convert_costs`, the range guards, the memory geometry) and (ii) the
+differential run of the compiled model against the real crate — not a proof about the Rust source.
+
+THE BLAKE2b CALLS.  In `Model/Argon2.lean` BLAKE2b is a STAND-IN: H0 (`initialHash`) is one
+`Spec.Blake2b.hash 64 []` over the concatenated input, and `Model.Argon2.longhash` is an independent
+re-implementation of `blake2b::longhash` over `Spec.Blake2b.hash`.  The Rust instead drives dryoc's own BLAKE2b
+(`State::init`, a dozen `update`s, `finalize`; `blake2b::longhash`).  §10 closes that gap:
+`Model/Argon2Code.lean` re-states `argon2_initial_hash`, `argon2_fill_first_blocks`, `argon2_finalize`,
+`argon2_hash`, `crypto_pwhash` with every BLAKE2b call going through `Model.Blake2b` (the statement-by-statement
+model of blake2b_soft.rs; all other functions are shared with `Model/Argon2.lean`), and `longhash_code_eq`,
+`initialHash_code_eq`, `argon2_code_path_eq_model`, `argon2_code_path_eq_spec` prove that this changes nothing.
 -/
 namespace DryocVerif.Properties.C09
 open DryocVerif DryocVerif.Model.Argon2
@@ -332,7 +345,11 @@ example : 7 * (2199023255552 / 1024 / 4) < 2 ^ 32 + 3 := by decide
 /-- **`fill_memory_model_eq_spec` (all lanes, not only `p = 1`).**  For Argon2i and Argon2id, every
 accepted parameter set with `m ≥ 8p` (the RFC's domain), `outlen ≠ u32::MAX` and
 `7·⌊m/4p⌋ − 3 < 2^32`: `argon2_hash` returns `Ok`, and the tag is the one computed by the
-RFC-9106-structured executable specification (which reproduces the RFC's test vectors) —
+RFC-9106-structured executable specification `Spec.Argon2.argon2` (that this specification reproduces the final
+tags of RFC 9106 §5.1–§5.3 is checked by RUNNING it — `Test/SpecVectorsA.lean` and the driver —, not in Lean's
+kernel: one 32 KiB tag takes the kernel more than 8 minutes, even the smallest instance `m = 8, t = 1` about five
+minutes; the one RFC value that is evaluated in the kernel is the §5.3 pre-hashing digest, `rfc9106_prehash_vector`
+in §10) —
 `H0`, the first blocks, `generate_addresses`, `index_alpha`, `fill_block` (= `G`, resp. `G ⊕ old`),
 the `curr_offset`/`prev_offset` bookkeeping, the final XOR and `H'` included. -/
 theorem fill_memory_model_eq_spec {ty t m p : Nat} {pwd salt : Bytes} {secret ad : Option Bytes}
@@ -535,6 +552,145 @@ theorem fill_block_eq_G (prev ref next : Block) (withXor : Bool) :
     fillBlock prev ref next withXor =
       if withXor then Spec.Argon2.xorBlock (Spec.Argon2.G prev ref) next else Spec.Argon2.G prev ref :=
   Proofs.Argon2.fillBlock_eq prev ref next withXor
+
+/-! ### 10. The BLAKE2b calls: the stand-ins of `Model/Argon2.lean` versus the models of dryoc's BLAKE2b code
+
+Everything above is about `Model.Argon2.argon2Hash`, whose H0 is ONE `Spec.Blake2b.hash 64 []` over the concatenated
+input and whose H′ (`Model.Argon2.longhash`) is a re-implementation over `Spec.Blake2b.hash`.  The Rust calls
+`blake2b::State::init / update / finalize` and `blake2b::longhash`; their statement-by-statement models are
+`Model.Blake2b.init / update / finalize` (`hashChunks` = `init`, `foldl update`, `finalize`) and
+`Model.Blake2b.longhash`.  The theorems of this section connect the two. -/
+
+/-- **H′ bridge.**  The model of the code's `blake2b::longhash` (chained `State::init`/`update`/`finalize`/`hash`
+calls of blake2b_soft.rs) returns what the stand-in `Model.Argon2.longhash` returns, for every output length allowed
+by the two `assert!`s and every input shorter than 2^64 − 132 bytes (so that BLAKE2b's byte counter stays in its low
+word; Argon2 passes 72 and 1024 bytes). -/
+theorem longhash_code_eq {n : Nat} (inp : Bytes) (h4 : 4 < n) (hmax : n < 0xFFFFFFFF)
+    (hin : inp.length + 132 < 2 ^ 64) :
+    Model.Blake2b.longhash n inp = Model.Argon2.longhash n inp :=
+  Proofs.Argon2Code.longhash_code_eq inp h4 hmax hin
+
+/-- outside the `assert!`s both panic, whatever the input -/
+theorem longhash_code_panic {n : Nat} (inp : Bytes) (h : n ≤ 4 ∨ 0xFFFFFFFF ≤ n) :
+    Model.Blake2b.longhash n inp = .panic ∧ Model.Argon2.longhash n inp = .panic :=
+  Proofs.Argon2Code.longhash_code_panic inp h
+
+/-- non-vacuity witness: the two calls Argon2 makes (1024 bytes out of 72, `outlen` bytes out of 1024) -/
+example : Model.Blake2b.longhash 1024 (zeros 72) = Model.Argon2.longhash 1024 (zeros 72)
+    ∧ Model.Blake2b.longhash 32 (zeros 1024) = Model.Argon2.longhash 32 (zeros 1024) :=
+  ⟨longhash_code_eq _ (by decide) (by decide) (by rw [Proofs.Blake2bBackend.zeros_length]; decide),
+   longhash_code_eq _ (by decide) (by decide) (by rw [Proofs.Blake2bBackend.zeros_length]; decide)⟩
+
+/-- the `update` calls of `argon2_initial_hash` (`Model.Argon2.initialHashChunks`), spelled out: with a non-empty
+password and salt, `Some(secret)` non-empty and `ad = None` the Rust issues these thirteen `update`s … -/
+example (p outlen m t ty : Nat) (pwd salt s : Bytes) (hp : pwd ≠ []) (hs : salt ≠ []) (hx : s ≠ []) :
+    initialHashChunks p outlen m t ty pwd salt (some s) none =
+      [store32 p, store32 outlen, store32 m, store32 t, store32 0x13, store32 ty,
+       store32 pwd.length, pwd, store32 salt.length, salt, store32 s.length, s, store32 0] := by
+  simp [initialHashChunks, optUpdate, hp, hs, hx, ARGON2_VERSION_NUMBER]
+
+/-- … and with an EMPTY password, `secret = Some(&[])` and `ad = None` the `update(password)` and `update(secret)`
+calls are skipped (`if !x.is_empty()`), the length words are not -/
+example (p outlen m t ty : Nat) (salt : Bytes) (hs : salt ≠ []) :
+    initialHashChunks p outlen m t ty [] salt (some []) none =
+      [store32 p, store32 outlen, store32 m, store32 t, store32 0x13, store32 ty,
+       store32 0, store32 salt.length, salt, store32 0, store32 0] := by
+  simp [initialHashChunks, optUpdate, hs, ARGON2_VERSION_NUMBER]
+
+/-- **H0 bridge.**  `State::init(64, None, None, None)`, then the `update`s of `argon2_initial_hash` in the order —
+and with the skips — of the Rust, then `finalize`, all through the model of blake2b_soft.rs, produce the 64-byte
+digest `Model/Argon2.lean` computes in one go over the concatenation; and `argon2_initial_hash` as a whole
+(`initialHashCode`: digest into the first 64 of 72 zeroed bytes) is the model's `initialHash`.  The hypothesis (total
+input below BLAKE2b's 2^128-byte limit) holds whenever `Argon2Context::new` accepted the lengths (`u32` each). -/
+theorem initialHash_code_eq (p outlen m t ty : Nat) (pwd salt : Bytes) (secret ad : Option Bytes)
+    (hlen : (initialHashInput p outlen m t ty pwd salt secret ad).length + 128 < 2 ^ 128) :
+    Model.Blake2b.hashChunks 64 none (initialHashChunks p outlen m t ty pwd salt secret ad)
+        = .ok (Spec.Blake2b.hash 64 [] (initialHashInput p outlen m t ty pwd salt secret ad))
+      ∧ initialHashCode Model.Blake2b.compress p outlen m t ty pwd salt secret ad
+        = .ok (initialHash p outlen m t ty pwd salt secret ad) :=
+  ⟨Proofs.Argon2Code.initialHash_chunks_eq p outlen m t ty pwd salt secret ad hlen,
+   Proofs.Argon2Code.initialHashCode_eq p outlen m t ty pwd salt secret ad hlen⟩
+
+/-- the hypothesis of `initialHash_code_eq` follows from `Valid` (every accepted call) -/
+theorem initialHash_input_small {outlen t m p : Nat} {pwd salt : Bytes} {secret ad : Option Bytes} (ty : Nat)
+    (hv : Valid outlen pwd.length salt.length (secret.map List.length) (ad.map List.length) t m p) :
+    (initialHashInput p outlen m t ty pwd salt secret ad).length + 128 < 2 ^ 128 := by
+  have := Proofs.Argon2Code.initialHashInput_length_lt (p := p) (outlen := outlen) (m := m) (t := t) (ty := ty)
+    hv.pwd_le hv.salt_le hv.secret_le hv.ad_le
+  omega
+
+set_option maxRecDepth 100000 in
+/-- TEST (a closed term evaluated by the kernel, not a theorem about all inputs): the **RFC 9106 §5.3 "Pre-hashing
+digest"** of the Argon2id test vector (32 × 0x01 password, 16 × 0x02 salt, 8 × 0x03 secret, 12 × 0x04 associated
+data, t = 3, m = 32, p = 4, 32-byte tag), computed THROUGH THE CODE PATH: the model of dryoc's `State::init`, the
+fourteen `update`s of `argon2_initial_hash`, `finalize`.  (This is the non-vacuity witness of `initialHash_code_eq`,
+too.) -/
+theorem rfc9106_prehash_vector :
+    Model.Blake2b.hashChunks 64 none
+      (initialHashChunks 4 32 32 3 2 (List.replicate 32 1) (List.replicate 16 2)
+        (some (List.replicate 8 3)) (some (List.replicate 12 4))) = .ok
+      [0x28,0x89,0xde,0x48,0x7e,0xb4,0x2a,0xe5,0x00,0xc0,0x00,0x7e,0xd9,0x25,0x2f,0x10,
+       0x69,0xea,0xde,0xc4,0x0d,0x57,0x65,0xb4,0x85,0xde,0x6d,0xc2,0x43,0x7a,0x67,0xb8,
+       0x54,0x6a,0x2f,0x0a,0xcc,0x1a,0x08,0x82,0xdb,0x8f,0xcf,0x74,0x71,0x4b,0x47,0x2e,
+       0x94,0xdf,0x42,0x1a,0x5d,0xa1,0x11,0x2f,0xfa,0x11,0x43,0x43,0x70,0xa1,0xe9,0x97] := by
+  decide +kernel
+
+/-- **code path = model.**  `argon2HashCode` (`Model/Argon2Code.lean`: `argon2_hash` with `argon2_initial_hash`,
+`argon2_fill_first_blocks` and `argon2_finalize` calling the model of dryoc's BLAKE2b — software backend; the SIMD
+backend is C18's `simd_argon2_eq`) returns exactly what `argon2Hash` returns — same bytes, same `Err`, same panic —
+for ALL arguments satisfying the two side conditions of `argon2Hash_no_panic` (accepted or not).  So every
+theorem of §1–§9 about `argon2Hash` on that domain is a theorem about the code path. -/
+theorem argon2_code_path_eq_model {ty t m p : Nat} {pwd salt : Bytes} {secret ad : Option Bytes} {outlen : Nat}
+    (hout : outlen < 0xFFFFFFFF) (h7 : 7 * (max m (8 * p) / (4 * p)) < 2 ^ 32 + 3) :
+    argon2HashCode Model.Blake2b.compress ty t m p pwd salt secret ad outlen
+      = argon2Hash ty t m p pwd salt secret ad outlen :=
+  Proofs.Argon2Code.argon2HashCode_eq_model hout h7
+
+/-- **HEADLINE, restated for the code path.**  For Argon2i and Argon2id, every accepted parameter set with
+`m ≥ 8p`, `outlen ≠ u32::MAX` and `7·⌊m/4p⌋ − 3 < 2^32`: the model of `argon2_hash` in which H0 and H′ are computed
+by (the models of) dryoc's own `blake2b::State` and `blake2b::longhash` returns `Ok` with the RFC 9106 tag.
+(`fill_memory_model_eq_spec` ∘ `argon2_code_path_eq_model`.) -/
+theorem argon2_code_path_eq_spec {ty t m p : Nat} {pwd salt : Bytes} {secret ad : Option Bytes}
+    {outlen : Nat} (hty : ty = 1 ∨ ty = 2)
+    (hv : Valid outlen pwd.length salt.length (secret.map List.length) (ad.map List.length) t m p)
+    (hm8 : 8 * p ≤ m) (hout : outlen < 0xFFFFFFFF) (h7 : 7 * (m / (4 * p)) < 2 ^ 32 + 3) :
+    argon2HashCode Model.Blake2b.compress ty t m p pwd salt secret ad outlen
+      = .ok (Spec.Argon2.argon2 ty pwd salt (secret.getD []) (ad.getD []) t m p outlen) := by
+  have hmax : max m (8 * p) = m := by omega
+  rw [argon2_code_path_eq_model hout (by rw [hmax]; exact h7)]
+  exact fill_memory_model_eq_spec hty hv hm8 hout h7
+
+/-- non-vacuity witness: the hypotheses hold jointly, and the theorem instantiated — Argon2id, 3 passes, 16 KiB,
+2 lanes, a secret and associated data (the instance of the witness of `fill_memory_model_eq_spec`) -/
+example :
+    argon2HashCode Model.Blake2b.compress 2 3 16 2 [1, 2, 3, 4] [0, 1, 2, 3, 4, 5, 6, 7] (some [9]) (some [7, 7]) 32
+      = .ok (Spec.Argon2.argon2 2 [1, 2, 3, 4] [0, 1, 2, 3, 4, 5, 6, 7] [9] [7, 7] 3 16 2 32) :=
+  argon2_code_path_eq_spec (.inr rfl) (by constructor <;> simp) (by decide) (by decide) (by decide)
+
+/-- `crypto_pwhash` over the code path = over the model, for all arguments on the documented domain … -/
+theorem cryptoPwhash_code_path_eq_model {outlen : Nat} {pwd salt : Bytes} {opslimit memlimit alg : Nat}
+    (hout : outlen < 0xFFFFFFFF) (h7 : 7 * (memlimit / 1024 / 4) < 2 ^ 32 + 3) :
+    cryptoPwhashCode Model.Blake2b.compress outlen pwd salt opslimit memlimit alg
+      = cryptoPwhash outlen pwd salt opslimit memlimit alg :=
+  Proofs.Argon2Code.cryptoPwhashCode_eq_model hout h7
+
+/-- … hence it is RFC 9106 Argon2i / Argon2id there (`cryptoPwhash_eq_spec` for the code path) -/
+theorem cryptoPwhash_code_path_eq_spec {outlen : Nat} {pwd salt : Bytes} {opslimit memlimit alg : Nat}
+    (halg : alg = 1 ∨ alg = 2)
+    (hv : PwhashValid outlen pwd.length salt.length opslimit memlimit)
+    (hout : outlen < 0xFFFFFFFF) (h7 : 7 * (memlimit / 1024 / 4) < 2 ^ 32 + 3) :
+    cryptoPwhashCode Model.Blake2b.compress outlen pwd salt opslimit memlimit alg
+      = .ok (Spec.Argon2.argon2 alg pwd salt [] [] opslimit (memlimit / 1024) 1 outlen) := by
+  rw [cryptoPwhash_code_path_eq_model hout h7]
+  exact cryptoPwhash_eq_spec halg hv hout h7
+
+/-- non-vacuity witness (`OPSLIMIT_MIN`, `MEMLIMIT_MIN`, 4-byte password, 16-byte salt) -/
+example :
+    cryptoPwhashCode Model.Blake2b.compress 32 [1, 2, 3, 4] [0, 1, 2, 3, 4, 5, 6, 7, 8, 9, 10, 11, 12, 13, 14, 15]
+        1 8192 2
+      = .ok (Spec.Argon2.argon2 2 [1, 2, 3, 4] [0, 1, 2, 3, 4, 5, 6, 7, 8, 9, 10, 11, 12, 13, 14, 15]
+          [] [] 1 (8192 / 1024) 1 32) :=
+  cryptoPwhash_code_path_eq_spec (.inr rfl) (by constructor <;> decide) (by decide) (by decide)
 
 /-! ### Tie to the source: the machine-translated kernels of `argon2.rs` (`DryocVerif/Gen/Argon2.lean`, regenerated by
 `tools/rs2lean.py` on every run) equal the hand-written model. -/
